@@ -1161,5 +1161,15 @@ pub fn check(prop: &dyn Prop, a: &CheckArgs) -> i32 {
         eprintln!("HARNESS-ERROR: only {} of {} runs executed", agg.runs, total);
         return 2;
     }
+    // a batch in which (almost) no run was non-trivial explored nothing: that is not "the property held"
+    // (on the unchanged tree every check is above 35 %; e.g. a sender that stops its carousel makes every
+    // C16 session too short to evaluate)
+    if exit == 0 && agg.nontrivial * 10 < agg.runs {
+        eprintln!(
+            "HARNESS-ERROR: only {} of {} runs were non-trivial by the rule of this check: nothing was explored, the result is not a pass",
+            agg.nontrivial, agg.runs
+        );
+        return 2;
+    }
     exit
 }
